@@ -5,7 +5,7 @@ From V Require Export Base CorrBase IdToken.
 (* THE SWITCH: false = today's emailFromIDToken (indexes jwt[1] unconditionally);
    true = after the fix that rejects len(jwt) < 2 with an error.  Flip this one line (and retire
    known finding C10-K1) when /repo carries the fix. *)
-Definition today_len_check : bool := false.
+Definition today_len_check : bool := true.
 
 (* ---- oracle table: JSON class of payload bytes, as classified by Go in the driver ---- *)
 Fixpoint assoc_body (k : str) (t : list (str * body user_fields)) : option (body user_fields) :=
